@@ -49,7 +49,9 @@ STRINGS = STRINGS_CORE + [
 ]
 
 NUMBERS = [0, 1, -1, 7, 255, -255, 2 ** 63, -(2 ** 64), 0.0, -0.0, 1.5, -2.25, 1e-7, 1e16, 1e300, 0.1,
-           123456.789, 1e22, 5e-324, True, False, None]
+           123456.789, 1e22, 5e-324, True, False, None,
+           -1e16, -1.5e+16, -1e300, -1e-7, -5e-324, -123456.789e10, 1e15, -1e15, 9007199254740993, 0.30000000000000004]
+NONFINITE = [float("inf"), float("-inf"), float("nan")]      # only put to the default loader (C02 says "all modules")
 
 DATES = [dt.date(1, 1, 1), dt.date(999, 12, 31), dt.date(1000, 1, 1), dt.date(2001, 2, 28), dt.date(9999, 12, 31)]
 _T = [(12, 0, 0, 0), (12, 0, 30, 0), (1, 2, 3, 4000), (1, 2, 3, 400), (23, 59, 59, 999999), (0, 0, 0, 0)]
@@ -74,13 +76,14 @@ CORE = [None, True, 0, -1, 1.5, "abc", "a b", "", "NULL", "it's", dt.date(2001, 
 
 KEYS = ["k", "Key_1", "lower", "^ptr", "ns:key", "K" * 30, "K" * 31, "bad key", "END", "a-b", "k.x", "1k", "k_", "",
         "g-", "12:00", "12:00-01", "2001-001", "NULL", "true", "group", "1", "1.5", "16#F#", "a+b", "a#b", "x/y",
-        "a\"b", "it's", "end_group", "Begin_Object"]
+        "a\"b", "it's", "end_group", "Begin_Object", "^" + "K" * 29, "^" + "K" * 30, "NS:" + "K" * 27, "NS:" + "K" * 28,
+        "^NS:" + "K" * 27, "K" * 29 + "_"]
 
 
-def modules(tier):
+def modules(tier, nonfinite=False):
     """yields (name, item list in vjson form)"""
     enc = vjson.enc
-    vals = simple_values()
+    vals = simple_values() + (NONFINITE if nonfinite else [])
     G = lambda items: {"$": "group", "items": items}      # noqa: E731
     O = lambda items: {"$": "object", "items": items}     # noqa: E731
     for i, v in enumerate(vals):
@@ -102,12 +105,17 @@ def modules(tier):
         yield "key-block", [[k, G([["a", 1]])], ["o", O([["b", 2]])]]
     # wrap-focused grid: element count x element kind x key length
     for n in range(1, 13):
-        for kind in ("int", "word", "quoted", "float", "long"):
+        for kind in ("int", "word", "quoted", "float", "long", "hyphen", "qhyphen", "mixed", "negfloat"):
             el = {"int": 123456, "word": "abcdefgh", "quoted": "two words", "float": 1.25e-7,
-                  "long": "x" * 30}[kind]
+                  "long": "x" * 30, "hyphen": "alpha-beta-gamma", "qhyphen": "map-projected data-set",
+                  "negfloat": -1.5e+16}.get(kind)
+            if kind == "mixed":
+                els = [enc(x) for x in (["it's here", "A SYMBOL STRING", 'say "hi" now', "x > y", "a < b"] * 3)[:n]]
+            else:
+                els = [enc(el)] * n
             for key in ("k", "a_key_of_twenty_chars", "K" * 28):
-                yield "wrap", [[key, [enc(el)] * n]]
-                yield "wrap-in-group", [["g", G([[key, [enc(el)] * n]])], ["o", O([["a", 1]])]]
+                yield "wrap", [[key, els]]
+                yield "wrap-in-group", [["g", G([[key, els]])], ["o", O([["a", 1]])]]
     # container trees with duplicate keys and groups next to same-named assignments
     from . import gen
     nmax = 3 if tier == "quick" else 4
